@@ -175,12 +175,10 @@ static struct func_regs h15_func_regs = {&h15_rd_varr, &h15_name2rdn, &h15_hrn2r
 static struct MIR_insn h15_label_obj = {.code = MIR_LABEL, .nops = 0, .ops = {{.mode = MIR_OP_INT, .u = {.i = 1}}}};
 /* Note (CBMC 6.11 pitfall measured on C11/C14): `item->u.proto->field` on a field-sensitive struct MIR_item can resolve to
    an invalid object, i.e. a NONDETERMINISTIC value.  That over-approximates: it can only produce spurious counterexamples
-   (which the native replay would refuse), never hide one.  The recommended workaround (an array of more than 64 items)
-   made every obligation here run out of memory (12 GB), so the items stay in a small array. */
-static struct MIR_item h15_items[4];
-#define h15_func_item_obj h15_items[1]
-#define h15_proto_item_obj h15_items[2]
-#define h15_import_item_obj h15_items[3]
+   (which the native replay would refuse), never hide one; none was observed.  The recommended workaround (an array of
+   more than 64 items) made every obligation here run out of memory (12 GB), and even a 4-element array made them 20 times
+   slower (pointers into one object differ by a symbolic offset), so the items are separate objects. */
+static struct MIR_item h15_func_item_obj, h15_proto_item_obj, h15_import_item_obj;
 static struct MIR_func h15_func = {.name = "fn",
                                    .func_item = &h15_func_item_obj,
                                    .insns = {&h15_label_obj, &h15_label_obj},
@@ -193,10 +191,9 @@ static struct MIR_func h15_func = {.name = "fn",
 static VARR (MIR_var_t) h15_pr_args_varr = {H_PR_NARGS, REF_MAX_ARGS, h15_pr_args, &h_alloc};
 static struct MIR_proto h15_proto
   = {.name = "p", .nres = H_PR_NRES, .res_types = h15_pr_res, .vararg_p = H_PR_VARARG, .args = &h15_pr_args_varr};
-static struct MIR_item h15_items[4]
-  = {[1] = {.module = &h15_module, .item_type = MIR_func_item, .u = {.func = &h15_func}},
-     [2] = {.module = &h15_module, .item_type = MIR_proto_item, .u = {.proto = &h15_proto}},
-     [3] = {.module = &h15_module, .item_type = MIR_import_item, .u = {.import_id = "imp"}}};
+static struct MIR_item h15_func_item_obj = {.module = &h15_module, .item_type = MIR_func_item, .u = {.func = &h15_func}};
+static struct MIR_item h15_proto_item_obj = {.module = &h15_module, .item_type = MIR_proto_item, .u = {.proto = &h15_proto}};
+static struct MIR_item h15_import_item_obj = {.module = &h15_module, .item_type = MIR_import_item, .u = {.import_id = "imp"}};
 #endif
 
 static void h15_state (int vararg) {
@@ -378,6 +375,8 @@ static const ref_proto_t h15_pr = {H_PR_NRES, H_PR_RES, H_PR_NARGS,
 enum { H_KF_NONE, H_KF_LADDR_OUT, H_KF_VA_LIST_UNDEF, H_KF_CALLEE_PROTO, H_KF_CALLEE_BLK, H_KF_ADDR_NONREG, H_KF_JCALL_UNCHECKED };
 static int h15_known_finding (size_t n, const ref_op_t *ds, unsigned expect) {
   int code = H_OPCODE;
+  if (MIR_call_code_p (code) && n >= 2 && ds[0].kind == RK_REF && ds[0].item == RR_PROTO && ds[1].kind == RK_REF && ds[1].item == RR_PROTO)
+    return H_KF_CALLEE_PROTO; /* see below */
   /* jcall: MIR_insn_op_mode has no case for MIR_JCALL and reads insn_descs[MIR_JCALL].op_modes[nop] (all zero = "undefined",
      index 5 is out of bounds): value types and output-ness of jcall results/arguments are not checked at all */
   if (code == MIR_JCALL && n >= 2 && ds[0].kind == RK_REF && ds[0].item == RR_PROTO
